@@ -13,6 +13,11 @@ def edit_cases():
         b1 = copy.deepcopy(base)
         b1["teams"][0]["targets"] = [0, 1, 2]
         out.append((base, b1, "team-add-target"))
+        long_a = copy.deepcopy(base)
+        long_a["tasks"][2]["work"] = 6.0  # T2 is still in progress when TM0's worker has run out of work and is refused for it
+        long_b = copy.deepcopy(long_a)
+        long_b["teams"][0]["targets"] = [0, 1, 2]
+        out.append((long_a, long_b, "team-add-target"))
         b2 = copy.deepcopy(base)
         b2["teams"][1]["targets"] = [1]
         out.append((base, b2, "team-remove-target"))
